@@ -33,7 +33,7 @@ def spelling(draw):
         return "", None
     sign = draw(st.sampled_from(["", "", "-", "+"]))
     a = draw(st.sampled_from(["0", "1", "5", "12", "007", "250", "100000", "3"]))
-    b = draw(st.sampled_from(["0", "5", "25", "001", "125", "9"]))
+    b = draw(st.sampled_from(["0", "5", "25", "001", "125", "9", "12345", "00004", "123456", "4999999", "03187"]))   # slicers write 5 decimals for E
     if kind == "int":
         txt = sign + a
     elif kind == "dec":
